@@ -114,6 +114,26 @@ Theorem C14_report_form_names_only_registered_active_nonprover :
 Proof. exact request_report_names_step. Qed.
 Print Assumptions C14_report_form_names_only_registered_active_nonprover.
 
+(* account level, since the repair 8a326f28 (InitProvider registers a provider only under the canonical,
+   lower-case spelling of its address): no provider named on a form is the prover's own ACCOUNT under
+   any spelling.  The harness checks [providers_canonical] on every observed state of the real app
+   (monitor request/*/names-the-prover-account-in-another-spelling). *)
+Theorem C14_attestation_form_never_names_the_provers_account :
+  forall s c fk perm s' chosen,
+    NoDup (akeys (providers s)) -> providers_canonical s ->
+    step s (ReqAttest c fk perm) = (s', OCreated chosen) ->
+    forall p, In p chosen -> same_account p c = false.
+Proof. exact attestation_form_other_accounts. Qed.
+Print Assumptions C14_attestation_form_never_names_the_provers_account.
+
+Theorem C14_report_form_never_names_the_provers_account :
+  forall s c p0 fk perm s' chosen,
+    NoDup (akeys (providers s)) -> providers_canonical s ->
+    step s (ReqReport c p0 fk perm) = (s', OCreated chosen) ->
+    forall p, In p chosen -> same_account p p0 = false.
+Proof. exact report_form_other_accounts. Qed.
+Print Assumptions C14_report_form_never_names_the_provers_account.
+
 (* a request answered with Success=false (or failing) writes nothing *)
 Theorem C14_refused_request_writes_nothing :
   forall s o s' out, (exists c fk perm, o = ReqAttest c fk perm) \/ (exists c p fk perm, o = ReqReport c p fk perm) ->
@@ -167,11 +187,11 @@ Example C14_repeated_signature_after_lowering_the_minimum_acts :
   = [OCreated [xC; xA; xB]; ORecorded; ORecorded; ODone; OActed].
 Proof. vm_compute. reflexivity. Qed.
 
-(* FINDING (reproduced on the real app by the harness, signature
-   C14/request/*/names-the-prover-account-in-another-spelling): "never the prover" holds for address
-   STRINGS only.  Providers are keyed by the raw msg.Creator, so one account can register twice,
-   lower- and upper-case spelled, in two domains; a form for the lower-case prover may then name the
-   upper-case spelling of the SAME account, whose signature counts towards the quorum. *)
+(* The defect repaired by 8a326f28, kept as a statement about states OUTSIDE [providers_canonical] (today
+   reachable only through a genesis file that carries an upper-case provider record): providers are keyed
+   by the raw address string, so with one account registered twice — lower- and upper-case spelled, in two
+   domains — a form for the lower-case prover names the upper-case spelling of the SAME account, whose
+   signature counts towards the quorum (monitor C14/request/*/names-the-prover-account-in-another-spelling). *)
 Example C14_form_may_name_the_provers_own_account_in_its_other_spelling_refuted :
   exists s c fk perm s' p,
     NoDup (akeys (providers s)) /\ step s (ReqAttest c fk perm) = (s', OCreated [p]) /\
